@@ -4,6 +4,8 @@ import (
 	"context"
 	"encoding/json"
 	"fmt"
+	"github.com/ajitpratap0/GoSQLX/pkg/models"
+	"github.com/ajitpratap0/GoSQLX/pkg/sql/parser"
 	"os"
 	"reflect"
 	"runtime"
@@ -321,6 +323,44 @@ func runC09(c *runCtx) {
 		}
 		ast.ReleaseAST(t1)
 	}
+	// tokens handed to a parsing entry point stay the caller's: no entry point writes into them
+	for i, sqlText := range append([]string{"SELECT url, owner, member, policy, until, reset FROM t, LATERAL (SELECT 1) l WHERE a = ANY (SELECT 1) OR b = SOME (SELECT 2)",
+		"SELECT a FROM t LEFT OUTER JOIN u ON t.i = u.i GROUP BY a ORDER BY a", "SELECT owner.url FROM owner", "SELECT \"select\", `from` FROM t"}, corpus...) {
+		tk2, _ := tokenizer.New()
+		toks, err := tk2.Tokenize([]byte(sqlText))
+		if err != nil {
+			continue
+		}
+		snap := fmtToksTyped(toks)
+		for _, entry := range []string{"ParseFromModelTokens", "ParseFromModelTokensWithPositions", "ParseContextFromModelTokens", "ParseWithRecoveryFromModelTokens"} {
+			p := parser.NewParser()
+			switch entry {
+			case "ParseFromModelTokens":
+				if t, err := p.ParseFromModelTokens(toks); err == nil {
+					ast.ReleaseAST(t)
+				}
+			case "ParseFromModelTokensWithPositions":
+				if t, err := p.ParseFromModelTokensWithPositions(toks); err == nil {
+					ast.ReleaseAST(t)
+				}
+			case "ParseContextFromModelTokens":
+				if t, err := p.ParseContextFromModelTokens(context.Background(), toks); err == nil {
+					ast.ReleaseAST(t)
+				}
+			default:
+				_, _ = p.ParseWithRecoveryFromModelTokens(toks)
+			}
+			p.Release()
+			res.count(fmt.Sprintf("toks-after-parse|%d|%s", i, entry), true)
+			if now := fmtToksTyped(toks); now != snap {
+				res.fail("held-tokens-modified-by-parse:"+entry, "a parsing entry point changed the tokens its caller passed in", map[string]any{"sql": truncate(sqlText, 300)}, map[string]any{"before": truncate(snap, 300), "after": truncate(now, 300)})
+				break
+			}
+		}
+		if i > c.n(400, 5000) {
+			break
+		}
+	}
 	// tokens and comments handed out by a tokenizer must survive its reuse
 	tk, _ := tokenizer.New()
 	for i := 0; i < c.n(200, 3000); i++ {
@@ -342,4 +382,13 @@ func runC09(c *runCtx) {
 				map[string]any{"first": a, "second": "SELECT zz /* other */ -- tail\nFROM qq", "before": comSnap, "after": fmtComments(comments)}, nil)
 		}
 	}
+}
+
+// fmtToksTyped: type, value, quote and span of every token
+func fmtToksTyped(toks []models.TokenWithSpan) string {
+	var sb strings.Builder
+	for _, t := range toks {
+		fmt.Fprintf(&sb, "%d:%q:%d:%d.%d-%d.%d ", int(t.Token.Type), t.Token.Value, t.Token.Quote, t.Start.Line, t.Start.Column, t.End.Line, t.End.Column)
+	}
+	return sb.String()
 }
